@@ -25,6 +25,7 @@ from contextlib import contextmanager
 
 from .exceptions import TIMEOUT, EOF
 from .spawnbase import SpawnBase
+from .utils import select_ignore_interrupts
 
 __all__ = ["SocketSpawn"]
 
@@ -90,7 +91,14 @@ class SocketSpawn(SpawnBase):
         self._log(s, "send")
 
         b = self._encoder.encode(s, final=False)
-        self.socket.sendall(b)
+        # Not sendall(): once asyncio reads from the socket it is non-blocking,
+        # and sendall() would give up half-way without saying how far it got.
+        sent = 0
+        while sent < len(b):
+            try:
+                sent += self.socket.send(b[sent:])
+            except BlockingIOError:
+                select_ignore_interrupts([], [self.socket], [])
         return len(b)
 
     def sendline(self, s) -> int:
